@@ -142,6 +142,8 @@ def register(M):
                 pass
         if isinstance(v, PathVal):
             return v.s
+        if isinstance(v, str):
+            return v          # keeps ConfText (a string with a known meaning)
         return M.to_str(interp, v, node)
 
     @ext('builtins.repr')
@@ -287,6 +289,26 @@ def register(M):
             elif t is not False:
                 raise AnalysisError('filter on undecided predicate', node)
         return out
+
+    @ext('builtins.slice')
+    def _slice(interp, args, kw, node):
+        return slice(*args)
+
+    @ext('builtins.iter')
+    def _iter(interp, args, kw, node):
+        return IterVal(interp.iterate(args[0], node))
+
+    @ext('builtins.next')
+    def _next(interp, args, kw, node):
+        it = args[0]
+        if not isinstance(it, IterVal):
+            raise AbsRaise(ExcVal('TypeError', (f"'{type(it).__name__}' object is not an iterator",)), node)
+        if it.pos < len(it.items):
+            it.pos += 1
+            return it.items[it.pos - 1]
+        if len(args) > 1:
+            return args[1]
+        raise AbsRaise(ExcVal('StopIteration'), node)
 
     @ext('builtins.print')
     def _print(interp, args, kw, node):
@@ -509,7 +531,7 @@ def register(M):
         v = args[0]
         if isinstance(v, PathVal):
             return v
-        return PathVal(str(v))
+        return PathVal(v if isinstance(v, str) else str(v))
 
     @ext('io.StringIO')
     def _sio(interp, args, kw, node):
@@ -520,6 +542,17 @@ def register(M):
         return int(math.floor(conc_num(args[0], node)))
 
     # ---- methods on python containers are dispatched in models_np.getattr_model ---------------
+
+
+class IterVal:
+    def __init__(self, items):
+        self.items = list(items)
+        self.pos = 0
+
+    def abs_iter(self):
+        rest = self.items[self.pos:]
+        self.pos = len(self.items)
+        return rest
 
 
 class PartialVal:
